@@ -200,9 +200,9 @@ package directive
 //@   pure
 //@   ensures ret == strprefix(s, prefix)
 //@ func IsStartWithDirective
-//@   tag C05 C01
+//@   tag C05 C15 C01
 //@   modifies nothing
-//@   ensures [C05] ret <==> len(b) >= 3 && ((49 <= b[0] && b[0] <= 53 && isCode(bstr(b[0:3]))) || (exists de :: 0 <= de && de <= 29 && de != HTTPResponseCode && strprefix(bstr(b), kwText(de))))
+//@   ensures [C05,C15] ret <==> len(b) >= 3 && ((49 <= b[0] && b[0] <= 53 && isCode(bstr(b[0:3]))) || (exists de :: 0 <= de && de <= 29 && de != HTTPResponseCode && strprefix(bstr(b), kwText(de))))
 //@   loop 1 invariant 0 <= i && i <= 30 && s == bstr(b) && len(b) >= 3 && !(49 <= b[0] && b[0] <= 53 && isCode(bstr(b[0:3])))
 //@   loop 1 invariant forall de :: 0 <= de && de < i && de != HTTPResponseCode ==> !strprefix(bstr(b), kwText(de))
 //@   loop 1 decreases 30 - i
